@@ -1,0 +1,12 @@
+//go:build !verif
+
+// Package verifhook provides instrumentation points for runtime verification.
+// Without the "verif" build tag every function is an empty stub.
+package verifhook
+
+// BeforeWrite is called before every persistent write of the object store
+// and the ref store. It always returns nil without the verif tag.
+func BeforeWrite(kind string, key []byte) error { return nil }
+
+// Yield marks a point between critical sections of a concurrent pipeline.
+func Yield(site string) {}
